@@ -859,6 +859,14 @@ Definition new_batch (h : header) : option batch :=
     Some (mkbatch (KSec (h_sec h)) (Some h) (negb (sec_eqb (h_sec h) ADV)) (sec_eqb (h_sec h) ADV) false [] [])
   else None.
 
+(* mergeableBatcher.Copy: NewBatch(&header), or ConvertBatchType(Batch{Header, Control: NewBatchControl()}) — the plain
+   Batch whose Create and Validate return an error — when NewBatch rejects the SEC code *)
+Definition copy_batch (h : header) : batch :=
+  match new_batch h with
+  | Some nb => nb
+  | None => mkbatch KBase (Some h) true false false [] []
+  end.
+
 Definition new_file : file := mkfile [] [].
 
 (* File.AddBatch: nil test, then batch.Category() *)
@@ -1028,13 +1036,11 @@ Fixpoint flatten_batches (l : list (option batch)) (outs : list batch) : R (list
           all_some (b_adventries b) ;;                          (* AddADVEntry(advEntries[i]) reads entry.Category *)
           flatten_batches t outs'
       | None =>
-          (* Copy(): NewBatch(&header) — error dropped — then Consume dereferences the new Batcher *)
-          match new_batch h with
-          | None => crash
-          | Some nb =>
-              all_some (b_adventries b) ;;
-              flatten_batches t (outs ++ [set_adventries (b_adventries b) (set_entries (present_entries (b_entries b)) nb)])
-          end
+          (* Copy(): NewBatch(&header); for a SEC code NewBatch rejects a plain Batch (header and control installed,
+             Create fails) takes its place; then Consume *)
+          let nb := copy_batch h in
+          all_some (b_adventries b) ;;
+          flatten_batches t (outs ++ [set_adventries (b_adventries b) (set_entries (present_entries (b_entries b)) nb)])
       end
   end.
 
